@@ -1,7 +1,7 @@
 #!/bin/bash
 # tools/sweep_benign.sh : apply every behaviour-preserving rewrite of /verif/benign to a scratch worktree of /repo HEAD and run the
 # quick checks of the properties anchored in the touched files against it (VERIF_REPO).  Expected: no VIOLATION line at all.
-cd /verif
+cd ${VERIF_HOME:-/verif}
 WT=${WT:-/tmp/benign_wt}
 git -C /repo worktree remove --force $WT 2>/dev/null; rm -rf $WT
 git -C /repo worktree add -q --detach $WT HEAD || exit 2
@@ -9,7 +9,7 @@ declare -A CHK
 CHK[A]="C12 C06 C16 C07 C08"; CHK[B]="C07 C08 C09 C01 C17"; CHK[C]="C02 C03 C04 C05 C10 C19 C20 C01"
 CHK[D]="C06 C11 C02 C10"; CHK[E]="C13 C14 C09 C17 C15"; CHK[F]="C16 C17 C18 C15 C07 C10 C12"
 bad=0
-for d in benign/*; do
+for d in /verif/benign/*; do
   n=$(basename $d); s=${n%%-*}
   git -C $WT checkout -q -- .
   git -C $WT apply $d/patch.diff 2>/dev/null || { echo "$n DOES-NOT-APPLY"; continue; }
